@@ -2,40 +2,45 @@
 //!
 //! Compiled only under `cfg(kani)` / `cfg(netflow_parser_verif)`; never part of a normal
 //! build.  `VMap` is a sorted association list with the observable semantics of
-//! `BTreeMap`/`HashMap` (unique keys, insert overwrites, ordered iteration), `VSet` the
-//! same for `HashSet`/`BTreeSet`.  Bounded model checkers cannot reason about the std
+//! `BTreeMap`/`HashMap` (unique keys, insert overwrites, ordered iteration), `VSet` models
+//! `HashSet` (membership only; iteration in insertion order).  Bounded model checkers cannot reason about the std
 //! containers (B-tree node navigation, SipHash with random keys), so the verification
 //! build swaps them for these.
 use serde::ser::{Serialize, SerializeMap, SerializeSeq, Serializer};
 
+/// `SORTED = true` models `BTreeMap` (ordered iteration); `SORTED = false` models
+/// `HashMap` (iteration order unspecified: insertion order here), which spares the
+/// model checker the element shifting of a sorted insert at a symbolic position.
 #[derive(Debug, Clone, PartialEq, Eq, PartialOrd, Ord, Hash)]
-pub struct VMap<K, V> {
+pub struct VMap<K, V, const SORTED: bool = true> {
     pub items: Vec<(K, V)>,
 }
 
-impl<K, V> Default for VMap<K, V> {
+pub type VHashMap<K, V> = VMap<K, V, false>;
+
+impl<K, V, const SORTED: bool> Default for VMap<K, V, SORTED> {
     fn default() -> Self {
         VMap { items: Vec::new() }
     }
 }
 
-pub enum Entry<'a, K, V> {
-    Occupied(OccupiedEntry<'a, K, V>),
-    Vacant(VacantEntry<'a, K, V>),
+pub enum Entry<'a, K, V, const SORTED: bool = true> {
+    Occupied(OccupiedEntry<'a, K, V, SORTED>),
+    Vacant(VacantEntry<'a, K, V, SORTED>),
 }
 
-pub struct OccupiedEntry<'a, K, V> {
-    map: &'a mut VMap<K, V>,
+pub struct OccupiedEntry<'a, K, V, const SORTED: bool = true> {
+    map: &'a mut VMap<K, V, SORTED>,
     idx: usize,
 }
 
-pub struct VacantEntry<'a, K, V> {
-    map: &'a mut VMap<K, V>,
+pub struct VacantEntry<'a, K, V, const SORTED: bool = true> {
+    map: &'a mut VMap<K, V, SORTED>,
     idx: usize,
     key: K,
 }
 
-impl<'a, K: Ord, V> OccupiedEntry<'a, K, V> {
+impl<'a, K: Ord, V, const SORTED: bool> OccupiedEntry<'a, K, V, SORTED> {
     pub fn key(&self) -> &K {
         &self.map.items[self.idx].0
     }
@@ -56,7 +61,7 @@ impl<'a, K: Ord, V> OccupiedEntry<'a, K, V> {
     }
 }
 
-impl<'a, K: Ord, V> VacantEntry<'a, K, V> {
+impl<'a, K: Ord, V, const SORTED: bool> VacantEntry<'a, K, V, SORTED> {
     pub fn key(&self) -> &K {
         &self.key
     }
@@ -71,7 +76,7 @@ impl<'a, K: Ord, V> VacantEntry<'a, K, V> {
     }
 }
 
-impl<'a, K: Ord, V> Entry<'a, K, V> {
+impl<'a, K: Ord, V, const SORTED: bool> Entry<'a, K, V, SORTED> {
     pub fn or_insert(self, default: V) -> &'a mut V {
         match self {
             Entry::Occupied(o) => o.into_mut(),
@@ -104,7 +109,7 @@ impl<'a, K: Ord, V> Entry<'a, K, V> {
     }
 }
 
-impl<K: Ord, V> VMap<K, V> {
+impl<K: Ord, V, const SORTED: bool> VMap<K, V, SORTED> {
     pub fn new() -> Self {
         VMap { items: Vec::new() }
     }
@@ -127,7 +132,7 @@ impl<K: Ord, V> VMap<K, V> {
             if ki == k {
                 return Ok(i);
             }
-            if ki > k {
+            if SORTED && ki > k {
                 return Err(i);
             }
             i += 1;
@@ -180,7 +185,7 @@ impl<K: Ord, V> VMap<K, V> {
             }
         }
     }
-    pub fn entry(&mut self, k: K) -> Entry<'_, K, V> {
+    pub fn entry(&mut self, k: K) -> Entry<'_, K, V, SORTED> {
         match self.pos(&k) {
             Ok(idx) => Entry::Occupied(OccupiedEntry { map: self, idx }),
             Err(idx) => Entry::Vacant(VacantEntry {
@@ -260,7 +265,7 @@ impl<K: Ord, V> VMap<K, V> {
     pub fn shrink_to_fit(&mut self) {}
 }
 
-impl<K: Ord, V, Q: ?Sized + Ord> core::ops::Index<&Q> for VMap<K, V>
+impl<K: Ord, V, Q: ?Sized + Ord, const SORTED: bool> core::ops::Index<&Q> for VMap<K, V, SORTED>
 where
     K: core::borrow::Borrow<Q>,
 {
@@ -270,7 +275,7 @@ where
     }
 }
 
-impl<K, V> IntoIterator for VMap<K, V> {
+impl<K, V, const SORTED: bool> IntoIterator for VMap<K, V, SORTED> {
     type Item = (K, V);
     type IntoIter = std::vec::IntoIter<(K, V)>;
     fn into_iter(self) -> Self::IntoIter {
@@ -278,7 +283,7 @@ impl<K, V> IntoIterator for VMap<K, V> {
     }
 }
 
-impl<'a, K, V> IntoIterator for &'a VMap<K, V> {
+impl<'a, K, V, const SORTED: bool> IntoIterator for &'a VMap<K, V, SORTED> {
     type Item = (&'a K, &'a V);
     type IntoIter = core::iter::Map<core::slice::Iter<'a, (K, V)>, fn(&'a (K, V)) -> (&'a K, &'a V)>;
     fn into_iter(self) -> Self::IntoIter {
@@ -289,7 +294,7 @@ impl<'a, K, V> IntoIterator for &'a VMap<K, V> {
     }
 }
 
-impl<K: Ord, V> Extend<(K, V)> for VMap<K, V> {
+impl<K: Ord, V, const SORTED: bool> Extend<(K, V)> for VMap<K, V, SORTED> {
     fn extend<T: IntoIterator<Item = (K, V)>>(&mut self, iter: T) {
         for (k, v) in iter {
             self.insert(k, v);
@@ -297,7 +302,7 @@ impl<K: Ord, V> Extend<(K, V)> for VMap<K, V> {
     }
 }
 
-impl<K: Ord, V> FromIterator<(K, V)> for VMap<K, V> {
+impl<K: Ord, V, const SORTED: bool> FromIterator<(K, V)> for VMap<K, V, SORTED> {
     fn from_iter<T: IntoIterator<Item = (K, V)>>(iter: T) -> Self {
         let mut m = VMap::new();
         m.extend(iter);
@@ -305,13 +310,13 @@ impl<K: Ord, V> FromIterator<(K, V)> for VMap<K, V> {
     }
 }
 
-impl<K: Ord, V, const N: usize> From<[(K, V); N]> for VMap<K, V> {
+impl<K: Ord, V, const N: usize, const SORTED: bool> From<[(K, V); N]> for VMap<K, V, SORTED> {
     fn from(a: [(K, V); N]) -> Self {
         a.into_iter().collect()
     }
 }
 
-impl<K: Serialize, V: Serialize> Serialize for VMap<K, V> {
+impl<K: Serialize, V: Serialize, const SORTED: bool> Serialize for VMap<K, V, SORTED> {
     fn serialize<S: Serializer>(&self, s: S) -> Result<S::Ok, S::Error> {
         let mut m = s.serialize_map(Some(self.items.len()))?;
         for (k, v) in &self.items {
@@ -355,9 +360,6 @@ impl<T: Ord> VSet<T> {
             if ti == t {
                 return Ok(i);
             }
-            if ti > t {
-                return Err(i);
-            }
             i += 1;
         }
         Err(i)
@@ -380,12 +382,8 @@ impl<T: Ord> VSet<T> {
     pub fn insert(&mut self, t: T) -> bool {
         match self.pos(&t) {
             Ok(_) => false,
-            Err(i) => {
-                if i == self.items.len() {
-                    self.items.push(t);
-                } else {
-                    self.items.insert(i, t);
-                }
+            Err(_) => {
+                self.items.push(t);
                 true
             }
         }
@@ -410,12 +408,6 @@ impl<T: Ord> VSet<T> {
     }
     pub fn iter(&self) -> impl DoubleEndedIterator<Item = &T> + ExactSizeIterator {
         self.items.iter()
-    }
-    pub fn first(&self) -> Option<&T> {
-        self.items.first()
-    }
-    pub fn last(&self) -> Option<&T> {
-        self.items.last()
     }
     pub fn is_subset(&self, other: &Self) -> bool {
         self.items.iter().all(|t| other.contains(t))
